@@ -1,7 +1,7 @@
 CHECK = dict(
     level='model_checking',
     parts=[dict(name='sched2', src=['harness/sched.c'], lib=['list.c', 'messageq.c', 'util.c', '@VERIF@/harness/sched_shim.c'], cflags=['-DPROP=2'], workers=16,
-                deadline=dict(quick=100, thorough=1200))],
+                deadline=dict(quick=300, thorough=3000))],
     rule='explicit-state BFS over histories of the real fibre.c scheduler (file-scope state reached by #including fibre.c) '
          'against a FIFO/timer/atomic-queue model; alphabet: fibre_run, fibre_run_atomic, fibre_kill from outside and '
          'fibre_scheduler_next(t) carrying the script the dispatched protothread body executes (up to two of fibre_run / '
